@@ -5,7 +5,7 @@
 From Coq Require Import List NArith Bool String.
 From Coq.Strings Require Import Byte.
 From GM Require Import Codec.Packet Topic.MatchSpec Broker.Backend Broker.BackendSpec
-  Broker.BackendProofsHist Broker.BackendC13 Broker.BackendC13Proofs.
+  Broker.BackendProofsHist Broker.BackendC13 Broker.BackendC13Proofs Broker.BackendLog Broker.BackendC13Protocol.
 Import ListNotations.
 Open Scope N_scope.
 
@@ -69,3 +69,111 @@ Example C13_nonvacuous :
   fst (run (init 2) ops) = [RSetup false; ROk; ROk; RSetupWait 1; ROk; ROk; RSetup true; RMsg (Msg (b "a") (b "p") 1 false)] /\
   forallb (fun n => unique_ok (run_state (init 2) (firstn n ops))) [0;1;2;3;4;5;6;7;8]%nat = true.
 Proof. split; vm_compute; reflexivity. Qed.
+
+(* ====================================================================== PROTOCOL part (Broker/BackendC13Protocol.v)
+   Steps of a history are quadruples (state before, operation, result, state after); `trace (init cap) ops`
+   lists them.  terminated_in c l : a successful OTerminate c occurs in l.
+   closed_after_term c l : a successful OMarkClosed c occurs in l, with a successful OTerminate c before it.
+   is_wait p x : x is the OSetup step of connection p_conn p that returned RSetupWait (p_old p).
+   The cleanup-order assumption "a connection is marked closed only after its Terminate" (broker/client.go
+   cleanup(), then close(closed); C12_will / C14_lifecycle) is the guard of OMarkClosed in the model. *)
+
+(* (a) order.  In every benign history a takeover completes (OSetupEnd false returns RSetup) only after, in this
+   order: the newcomer's Setup started waiting for the displaced connection, that connection terminated, it was
+   marked closed. *)
+Theorem C13_order : forall cap ops l1 st b st' l2,
+  forallb benign ops = true ->
+  trace (init cap) ops = l1 ++ (st, OSetupEnd false, RSetup b, st') :: l2 ->
+  exists p a w mid, st_pending st = Some p /\ l1 = a ++ w :: mid /\ is_wait p w /\ closed_after_term (p_old p) mid.
+Proof. exact order_benign. Qed.
+Print Assumptions C13_order.
+
+(* the same without any hypothesis on the history (kill timeouts, Close allowed): Terminate old, then MarkClosed old,
+   precede the completion *)
+Theorem C13_order_any : forall cap ops l1 st b st' l2,
+  trace (init cap) ops = l1 ++ (st, OSetupEnd false, RSetup b, st') :: l2 ->
+  exists p, st_pending st = Some p /\ closed_after_term (p_old p) l1.
+Proof. exact order_any. Qed.
+Print Assumptions C13_order_any.
+
+(* setup mutex: while a Setup waits no other Setup is enabled, and it keeps waiting until its SetupEnd *)
+Theorem C13_setup_excluded : forall st p c id clean,
+  st_pending st = Some p -> step st (OSetup c id clean) = (RNotEnabled, st).
+Proof. exact setup_excluded. Qed.
+Print Assumptions C13_setup_excluded.
+
+Theorem C13_pending_persists : forall st p o,
+  st_pending st = Some p -> (forall t, o <> OSetupEnd t) -> st_pending (snd (step st o)) = Some p.
+Proof. exact pending_persists. Qed.
+Print Assumptions C13_pending_persists.
+
+(* (b) many contenders.  `completions id tr`: the connections whose Setup for client id `id` completed (directly or
+   at the end of a takeover), in order.  After every benign history, for every client id: a connection active for
+   the id is the LAST of them, all earlier ones have terminated, it is the only active one; every connection whose
+   Setup completed is either the active one or terminated; no connection completes twice.  (Holds at every point,
+   also while a Setup is waiting.) *)
+Theorem C13_many : forall cap ops id,
+  forallb benign ops = true -> id <> [] ->
+  let st := run_state (init cap) ops in
+  let tr := trace (init cap) ops in
+  (forall c, active_for st id c ->
+     (exists l, completions id tr = l ++ [c] /\
+                forall c', In c' l -> mem_n c' (st_term st) = true /\ terminated_in c' tr) /\
+     (forall c2, active_for st id c2 -> c2 = c)) /\
+  (forall c', In c' (completions id tr) -> active_for st id c' \/ terminated_in c' tr) /\
+  NoDup (completions id tr).
+Proof. exact many_contenders. Qed.
+Print Assumptions C13_many.
+
+(* (c) handover chain.  Any sequence of takeover operations (non-clean Setup, SetupEnd, MarkClosed, Terminate — a
+   chain c1 -> c2 -> ... -> cn) keeps the subscriptions and the stored queue of every stored session; *)
+Theorem C13_handover_chain : forall ops st id s,
+  forallb takeover_op ops = true -> NonCleanPending st ->
+  alookup bytes_eqb id (st_stored st) = Some s ->
+  exists s', alookup bytes_eqb id (st_stored (run_state st ops)) = Some s' /\
+             s_subs s' = s_subs s /\ s_sq s' = s_sq s.
+Proof. exact handover_chain. Qed.
+Print Assumptions C13_handover_chain.
+
+(* in the delivery log (C06_delivery_log) a takeover operation is no event for a stored queue, *)
+Theorem C13_takeover_no_event : forall k st o r,
+  takeover_op o = true ->
+  enq_event k false st o r = [] /\ deq_count k false st o r = 0%nat /\ reset_event k false st o r = false.
+Proof. exact takeover_no_event. Qed.
+Print Assumptions C13_takeover_no_event.
+
+(* and subscriptions change only through Subscribe / Unsubscribe: what a connection at the end of a chain holds is
+   what the history's subscribes, unsubscribes, publishes and dequeues accumulated *)
+Theorem C13_subs_only_by_subscribe : forall st o k s s',
+  TempsOk st ->
+  match o with OSubscribe _ _ _ | OUnsubscribe _ _ => False | _ => True end ->
+  get_session st k = Some s -> get_session (snd (step st o)) k = Some s' -> s_subs s' = s_subs s.
+Proof. exact subs_only_by_subscribe. Qed.
+Print Assumptions C13_subs_only_by_subscribe.
+
+(* non-vacuity: three contenders for client id x; a fourth Setup while the third waits is refused; the session
+   (subscription, a QoS 1 message published during the first takeover) reaches the third connection *)
+Definition three_contenders : list op :=
+  [OSetup 1 (b "x") false; OSubscribe 1 [(b "a", 1)] [[]];
+   OSetup 2 (b "x") false; OPublish 9 (Msg (b "a") (b "p1") 1 false) []; OTerminate 1; OMarkClosed 1; OSetupEnd false;
+   OSetup 3 (b "x") false; OSetup 4 (b "x") true; OTerminate 2; OMarkClosed 2; OSetupEnd false;
+   ODequeue 3 false].
+
+Example C13_three_contenders :
+  forallb benign three_contenders = true /\
+  fst (run (init 2) three_contenders) =
+    [RSetup false; ROk; RSetupWait 1; ROk; ROk; ROk; RSetup true;
+     RSetupWait 2; RNotEnabled; ROk; ROk; RSetup true; RMsg (Msg (b "a") (b "p1") 1 false)] /\
+  completions (b "x") (trace (init 2) three_contenders) = [1; 2; 3] /\
+  st_active (run_state (init 2) three_contenders) = [(b "x", 3)] /\
+  st_term (run_state (init 2) three_contenders) = [2; 1] /\
+  option_map s_subs (alookup bytes_eqb (b "x") (st_stored (run_state (init 2) three_contenders))) = Some [(b "a", 1)].
+Proof. vm_compute. repeat split; reflexivity. Qed.
+
+(* "every displaced connection has been closed" read literally (OMarkClosed) holds for connections displaced by a
+   takeover (C13_order); a connection that went away by itself is terminated but may not be marked closed yet when
+   its successor is already active — counter-history to the literal reading: *)
+Example C13_successor_before_closed :
+  let st := run_state (init 2) [OSetup 1 (b "x") false; OTerminate 1; OSetup 2 (b "x") false] in
+  st_active st = [(b "x", 2)] /\ st_term st = [1] /\ st_closed st = [].
+Proof. vm_compute. repeat split; reflexivity. Qed.
